@@ -50,6 +50,10 @@ def generate(ctx):
                 w = util.small_rationals(rng, wshape).tolist()
                 yield 'cadv', {'b': b, 'x': x, 'w': w, 'wshape': wshape, 'axis': axis, 'bv': bool(rng.integers(0, 2))}
                 yield 'upwind', {'b': b, 'x': x, 'w': w, 'wshape': wshape, 'axis': axis}
+            if r == 0 and K >= 2:
+                # integer-typed data (a legitimate input: the routines must promote, not truncate)
+                xi = rng.integers(-9, 10, size=(K, 2)).tolist(); wi = rng.integers(-9, 10, size=(K - 1, 2)).tolist()
+                yield 'int_data', {'b': b, 'x': xi, 'w': wi}
             T = util.small_rationals(rng, (K, 2, 2), 200, 300, 1).tolist()
             yield 'geo', {'b': b, 'T': T, 'R': [287.0, 1.0, 0.28][r % 3]}
     # malformed / borderline level sets
@@ -195,6 +199,27 @@ def r_upwind(ctx, a):
         ctx.corr('upwind_vertical_advection', ocol, ctx.model.call(7, [K], [a['b'], wcol, col]), scale=scale)
 
 
+def r_int_data(ctx, a):
+    """Same routines on integer-typed arrays: results must equal those on the float copy of the data."""
+    jnp, sc, jnu, pe = J()
+    c = _coords(a['b']); K = c.layers
+    xi = np.asarray(a['x'], dtype=np.int64); wi = np.asarray(a['w'], dtype=np.int64).reshape(K - 1, xi.shape[1])
+    xf = xi.astype(np.float64); wf = wi.astype(np.float64)
+    c2cmin = np.abs(c.center_to_center).min()
+    sc_ = float(np.abs(xf).max() + 1) * float(np.abs(wf).max() + 1) / c2cmin
+    pairs = [('centered_difference', lambda x, w: sc.centered_difference(x, c, axis=0)),
+             ('cumulative_sigma_integral', lambda x, w: sc.cumulative_sigma_integral(x, c, axis=0)),
+             ('sigma_integral', lambda x, w: sc.sigma_integral(x, c, axis=0)),
+             ('cumulative_log_sigma_integral', lambda x, w: sc.cumulative_log_sigma_integral(x, c, axis=0)),
+             ('centered_vertical_advection', lambda x, w: sc.centered_vertical_advection(w, x, c, axis=0)),
+             ('upwind_vertical_advection', lambda x, w: sc.upwind_vertical_advection(w, x, c, axis=0))]
+    for name, f in pairs:
+        ri = np.asarray(f(jnp.asarray(xi), jnp.asarray(wi)), dtype=np.float64); rf = np.asarray(f(jnp.asarray(xf), jnp.asarray(wf)), dtype=np.float64)
+        ctx.oracle_close(f'{name}: integer-typed data gives the same result as its float copy', ri, rf, scale=sc_ * K)
+    for (idx, col), (_, ocol) in zip(util.columns(xf, 0), util.columns(np.asarray(sc.centered_difference(jnp.asarray(xi), c, axis=0), dtype=np.float64), 0)):
+        ctx.corr('centered_difference (integer-typed data)', ocol, ctx.model.call(2, [K], [a['b'], col]), scale=sc_)
+
+
 def r_geo(ctx, a):
     jnp, sc, jnu, pe = J()
     c = _coords(a['b']); K = c.layers; T = np.asarray(a['T'], dtype=np.float64); R = a['R']
@@ -216,4 +241,4 @@ def r_geo(ctx, a):
 
 
 RUNNERS = {'derived': r_derived, 'accept': r_accept, 'cumint': r_cumint, 'cumlog': r_cumlog, 'cdiff': r_cdiff,
-           'cadv': r_cadv, 'upwind': r_upwind, 'geo': r_geo}
+           'cadv': r_cadv, 'upwind': r_upwind, 'geo': r_geo, 'int_data': r_int_data}
